@@ -214,6 +214,20 @@ theorem canon_path_root (puny : Str → Str) (quoted sf : Bool) (p : Parsed)
   generalize hasMore puny sf p = m
   cases quoted <;> cases m <;> decide
 
+/-- non-vacuity of the third way to `"/"` (FX-C02-TRAILINGWS): a host ending with a no-break
+space and neither query nor fragment keeps the slash; the same host with a port does not
+need it; a bracketed host ends with `]` -/
+example :
+    let nbsp : Str := "a.com".toList ++ [Char.ofNat 0xa0]
+    let p : Parsed :=
+      { scheme := "http".toList, netloc := nbsp, path := "/".toList, query := [], fragment := [],
+        username := none, password := none, hostname := some nbsp, port := none }
+    hasMore id false p = true ∧ (canonComps id false false p).path = ['/'] ∧
+    hasMore id false { p with netloc := nbsp ++ ":8080".toList, port := some 8080 } = false ∧
+    hasMore id false { p with netloc := nbsp ++ ":80".toList, port := some 80 } = true ∧
+    hasMore id false { p with netloc := '[' :: nbsp ++ [']'] } = false := by
+  decide +kernel
+
 /-- the hypothesis is needed: on a relative path `normpath` cannot pop the first segment -/
 example : pathView (canonPath "a/..".toList false) ≠ pathView "a/..".toList := by decide
 
